@@ -48,7 +48,7 @@ func runParent(r *ev.Run) {
 		}
 	}
 	// ---- (2) free-running rounds on a real node ----
-	pats := []string{"same-output", "kv-ww", "kv-rw", "kv-rr", "disjoint", "select", "play", "mixed"}
+	pats := []string{"same-output", "kv-ww", "kv-rw", "kv-rr", "disjoint", "select", "play", "mixed", "balance-cold", "balance-cold"}
 	per := r.N(25, 600)
 	batches := r.N(1, 4)
 	for b := 0; b < batches; b++ {
@@ -88,6 +88,30 @@ func runParent(r *ev.Run) {
 			}
 		}
 	}
+	// ---- (2b) bursts: many cheap rounds on single conflict points ----
+	for bi := 0; bi < r.N(2, 12); bi++ {
+		c := spawn("bursts", "x", r.N(450, 1200), r.Seed*1000+int64(bi), 20*time.Minute)
+		if !judgeChild(r, c, "bursts") {
+			continue
+		}
+		var br burstResult
+		if json.Unmarshal(c.data, &br) != nil {
+			r.Inconclusive("bursts child wrote no result")
+			continue
+		}
+		r.Count("bursts", br.Bursts)
+		r.Count("bursts.spend", br.SpendBursts)
+		r.Count("bursts.key", br.KeyBursts)
+		r.Count("bursts.select", br.SelectBursts)
+		r.Count("requests.admitted", br.Admitted)
+		r.Count("requests.refused", br.Refused)
+		r.Evals(br.Bursts)
+		r.Shape(fmt.Sprintf("bursts|%d|%d", bi, br.Admitted))
+		for _, p := range br.Problems {
+			parts := strings.SplitN(p, " ## ", 2)
+			r.Violation(parts[0], parts[1], br)
+		}
+	}
 	// ---- (3) race detector reports of all children ----
 	raceReports(r)
 	r.Floor("rounds", 100)
@@ -95,6 +119,9 @@ func runParent(r *ev.Run) {
 	r.Floor("porcupine.ok", 60)
 	r.Floor("spin.acquired", 50000)
 	r.Floor("spin.refused", 1000)
+	r.Floor("bursts.spend", 200)
+	r.Floor("bursts.key", 200)
+	r.Floor("bursts.select", 200)
 	r.Assume("interleavings are those the Go scheduler produces on this machine under the race detector (plus yields inside the workload); schedules finer than that are out of reach")
 }
 
